@@ -3,6 +3,7 @@ E1 over adversarial answer scripts (ties, incremental chains, success right befo
 from ..common import Report
 from ..e1 import E1Sink, gate, replay_case, vacuity_floor
 from ..explore import explore
+from ..optsweep import sweep_jobs
 
 PID = "C04"
 MON = ["C04"]
@@ -61,6 +62,8 @@ def run(ctx):
     ov = [job(D, g, target=t, opts=dict(v, max_fun_evals=35 + 10 * D), seed=seeds[0], base=b) for D in (1, 2) for g in ("lin", "log") for v in variants
           for t, b in (("adv", "F"), ("adv", "S4"), ("sphere_in", "F"))]
     st = explore(ov, ["ans"], 0 if q else 1, sink, stats=st, name="option-variants")
+    sw = sweep_jobs(lambda D, m, o: job(D, "lin", target="sphere_in" if D == 2 else "adv", base="S4", opts=dict(o, max_fun_evals=o.get("max_fun_evals", 40 + 10 * D)), seed=seeds[0]), q, modes=("det",))
+    st = explore(sw, ["ans"], 0, sink, stats=st, name="option-variants-full")
     sink.finish_cov(st)
     rep.set("gate_jobs", ng)
     vacuity_floor(rep, sink, 200)
